@@ -241,6 +241,17 @@ def allowed_after(before, ev, kind):
     return set()
 
 
+def allowed_direct(before, ex):
+    """Request states a response handler may enter by itself (not through the queue of postponed events)."""
+    if ex == 'CREATE_CHILD_SA' and before == 'REK_CHILD_REQ_SENT':
+        return {'DEL_CHILD_REQ_SENT', before}          # delete the replaced SA; INVALID_KE_PAYLOAD retry
+    if ex == 'IKE_AUTH' and before == 'AUTH_REQ_SENT':
+        return {'DEL_CHILD_REQ_SENT'}
+    if ex == 'CREATE_CHILD_SA' and before in ('NEW_CHILD_REQ_SENT', 'REK_CHILD_REQ_SENT'):
+        return {before}          # INVALID_KE_PAYLOAD retry
+    return set()
+
+
 class CollisionMonitor:
     """C09 oracles (1) and (2): nothing escapes, no state error, no generic-exception recovery, transitions allowed,
     collisions answered per RFC 7296 2.25."""
@@ -320,6 +331,11 @@ class CollisionMonitor:
                 if b_state in REQ_SENT or any(x in REQ_SENT for x in allowed):
                     closure |= {'DELETED'} if (b is not None and b['retransmissions'] >= 4) else set()
                 ok = a_state in closure
+                # an exchange started out of the queue of postponed local events needs such an event: NEW_CHILD / DPD / DEL_CHILD / REK_IKE --response--> a fresh
+                # CHILD-level request is only allowed when something was queued (REK_CHILD -> DEL_CHILD of the replaced SA and the IKE_AUTH clean-up are direct)
+                if ok and ev[0] == 'resp' and a_state in QUEUED_STARTS and a_state not in allowed_direct(b_state, ev[1]) and b is not None and not b['pending']:
+                    ok = False
+                    allowed = allowed - QUEUED_STARTS | allowed_direct(b_state, ev[1])
             trip = (b_state, ev[0] + ':' + (ev[1] if len(ev) > 1 else '') + (f'/{kind}' if kind else ''), a_state)
             ck.seen('col.transitions', trip)
             if hs:
